@@ -89,6 +89,8 @@ class Contract:
         self.lemmas_at = kw.pop("lemmas_at", {})
         self.unroll = kw.pop("unroll", {})          # loop ordinal -> max iterations (bounded proof, P<=n)
         self.scenarios = kw.pop("scenarios", None)
+        self.assumes = kw.pop("assumes", [])        # object invariants of parsed notation objects ASSUMED at entry (not obligations of callers): established by
+                                                    # constructors outside the engine's reach, checked natively by the bounded drivers, listed in evidence
         self.assert_at = kw.pop("assert_at", {})   # anchor (first line of a statement) -> [clauses] proved right after that statement ("site" obligations: what holds at a decision site)
         self.uses = kw.pop("uses", {})               # ensures label -> tags of the QUANTIFIED hypotheses its proof may use (all quantifier-free ones are kept); sound: fewer hypotheses
         self.opaque_final_heap = kw.pop("opaque_final_heap", False)   # keep the named final-heap arrays opaque in reads (lemma-only sub-proofs rely on it)
